@@ -1008,6 +1008,67 @@ def sched_orders(a, n0=8, maxn=None):
     return outs
 
 
+def sched_event_faults(post, thread_ops):
+    """C17 under concurrency: a download event goes out once for every update of the interleaving that reports
+    'installed', and for no other; thread_ops = per thread the list of its op lines"""
+    outs = [t.split(',') for t in post['out'].split('|')]
+    inst = 0
+    for ops_t, outs_t in zip(thread_ops, outs):
+        for o, r in zip(ops_t, outs_t):
+            if o.split()[1] == 'update' and r == '1':
+                inst += 1
+    ndl = len([x for x in post['net'] if x.startswith('E:D.')])
+    if ndl != inst:
+        return ['C17/C11: %d update(s) of the interleaving reported installed (outputs %s) but %d download event(s) were sent (%s)' % (
+            inst, post['out'], ndl, [x for x in post['net'] if x.startswith('E:')])]
+    return []
+
+
+def run_C17(pid, tier, seed, model_ok=True):
+    a = run_lifecycle(pid, tier, seed, build_C17, [monitors.mon_C17, monitors.mon_C20], trig_events, C17_RULE, model_ok=model_ok)
+    # "a download event is sent once after each successful install and never otherwise" when launch reports of another
+    # thread land between the critical sections of the update (scheduler-controlled real threads, as in C11)
+    ctx = Ctx(seed=seed)
+    work = os.path.join(CACHE, 'work-%s-sch-%d' % (pid, os.getpid()))
+    try:
+        al = gen.Alphabet(ctx)
+        header = [h for h in ctx.header() if h != 'dls on']
+        hs, meta = [], {}
+        others = {'s_fail': ['op start', 'op failure'], 'fail': ['op failure'], 'ok': ['op success'], 'fail_q': ['op failure', 'op nextnum']}
+        for stt in ('good1', 'boot1', 'good1boot2', 'good1pend2'):
+            for uk in ('u1', 'u2', 'u2rb2'):
+                for ok, oops in others.items():
+                    orders = sched_orders(2)
+                    if tier == 'quick':
+                        orders = orders[::3]
+                    for oi, order in enumerate(orders):
+                        name = 'c17s_%s_%s_%s_%d' % (stt, uk, ok, oi)
+                        lines = [al.init] + al.seq(PFX[stt])
+                        hs.append((name, lines + ['t0 ' + al.ops[uk][0]] + ['t1 ' + x for x in oops] + ['order ' + order, 'op nextnum']))
+                        meta[name] = (len(lines), [[al.ops[uk][0]], oops])
+        model, impl, ex = run_both(header, hs, work, impl_only=not model_ok)
+        a['extras'] += ex
+        if model_ok:
+            for (h, idx, ml, il) in diff_traces(model, impl):
+                a['divergences'].append((h, idx, ml, il, dict(hs)[h], header))
+        n = 0
+        for name, ops in hs:
+            tr = impl.get(name)
+            if tr is None or len(tr) != meta[name][0] + 2:
+                a['extras'].append('C17 schedules: incomplete implementation trace for %s' % name)
+                continue
+            n += 1
+            for msg in sched_event_faults(parse_line(tr[meta[name][0]]), meta[name][1]):
+                a['monitor_fail'].append((name, len(ops) - 1, msg, ops, header))
+        a['evaluations'] += n
+        a['dist'] = dict(a.get('dist', {}), update_vs_launch_report_schedules=n)
+        a['traces'] = a.get('traces', 0) + len(impl)
+        return a
+    finally:
+        ctx.cleanup()
+        shutil.rmtree(work, ignore_errors=True)
+
+
 def run_C11(pid, tier, seed, model_ok=True):
     rnd = random.Random(seed)
     ctx = Ctx(seed=seed)
@@ -1074,6 +1135,8 @@ def run_C11(pid, tier, seed, model_ok=True):
             for slot in ('nb', 'lb', 'cb'):
                 if ps[slot] and ps[slot]['num'] in ps['bad']:
                     fails.append((name, npre, 'C11: after the interleaving patch %d is banned AND is the %s patch (outputs %s)' % (ps[slot]['num'], slot, post['out']), ops, header))
+            for msg in sched_event_faults(post, [[uop], oops]):
+                fails.append((name, npre, msg, ops, header))
             ppre = pstate(pre)
             t1kinds = [x.split()[1] for x in oops]
             if 'failure' in t1kinds and 'start' not in t1kinds and ppre['cb']:
@@ -1413,19 +1476,21 @@ def run_C15(pid, tier, seed, model_ok=True):
                 hs.append(('nores%d' % nores, [al.init] + al.seq(PFX[pk]) + [o] + al.seq(['q', 'p', 'c'])))
                 nores += 1
         hs.append(('nores_noinit', ['op update0 err err', 'op updatet err err', 'op check0 err', al.init, 'op nextnum']))
-        # ABI edges the model has no word for: NULL to the free functions, non-UTF-8 C strings, NULL parameters
-        edge_ops = ['op initbadutf8', 'op freenull', 'op updatebadch', al.init] + al.seq(['u1']) + \
-                   ['op freenull', 'op updatebadch', 'op checkbadch', 'op nextnum', 'op initbadutf8', 'op nextnum']
-        _, eimpl, eex = run_both(ctx.header(), [('abi_edges', edge_ops)], work, impl_only=True)
-        extras += eex
-        et = [parse_line(l) for l in eimpl.get('abi_edges', [])]
-        want = ['false,false', 'unit', '-1', 'true', '1', 'unit', '-1', 'false', '1', 'false,false', '1']
-        got = [x['out'] for x in et]
-        if got != want:
-            fails.append(('abi_edges', 0, 'C15: ABI edge cases (NULL to free functions, non-UTF-8 channel / release version, NULL parameters) answered %s, expected %s' % (got, want), edge_ops, ctx.header()))
-        elif any(a['raw'].split(' ', 1)[1] != b['raw'].split(' ', 1)[1] for a, b in zip(et[4:10], et[5:11]) if True) and \
-                len(set(x['raw'].split(' ', 1)[1].rsplit(' net=', 1)[0] for x in et[4:])) != 1:
-            fails.append(('abi_edges', 0, 'C15: an ABI edge-case call changed the stored state', edge_ops, ctx.header()))
+        # the C wrappers with NULL / ill-formed UTF-8 arguments (model: CApi.cstep): each pointer argument of shorebird_init
+        # proper, NULL or not UTF-8, one at a time and in pairs; NULL to the free functions; a channel that is not UTF-8
+        relt = hx(REL1)
+        yt = al.init.split()[3]
+        specs = ['noooooo'[:6], 'nooooo', 'onoooo', 'oonooo', 'ooonoo', 'oooono', 'ooooon', 'oboooo', 'oobooo', 'ooobo' + 'o', 'oooobo', 'ooooob',
+                 'ooooeo', 'onnnnn', 'obbbbb', 'oonoon', 'obooob']
+        specs = sorted(set(x for x in specs if len(x) == 6 and x != 'oooooo'))
+        edge_ops = ['op initbadutf8', 'op freenull', 'op updatebadch', 'op checkbadch']
+        for sp in specs:
+            edge_ops += ['op cinit %s %s %s' % (relt, yt, sp), 'op nextnum']
+        edge_ops += ['op cinit %s %s oooooo' % (relt, yt)] + al.seq(['u1']) + ['op freenull', 'op updatebadch', 'op checkbadch', 'op nextnum']
+        for sp in specs[::3]:
+            edge_ops += ['op cinit %s %s %s' % (relt, yt, sp), 'op nextnum']
+        edge_ops += ['op initbadutf8', 'op nextnum', 'op start', 'op updatebadch', 'op curnum']
+        hs.append(('abi_edges', edge_ops))
         model, impl, ex = run_both(ctx.header(), hs, work, impl_only=not model_ok)
         extras += ex
         if model_ok:
@@ -1692,6 +1757,8 @@ C06_RULE = ('(a) every injected failure (check error, download error, junk downl
             'non-trivial = distinct (state, update-with-offer) for (a), distinct (state, server behaviour) for (b)')
 
 
+C17_RULE = ('exhaustive depth-k lifecycle histories + histories with many failures before an update and restarts in between; every interleaving of an update with launch '
+            'reports of another thread (download event iff installed); non-trivial = distinct (state, op) that sent or queued an event')
 C14_RULE = ('second init (6 parameter variants) at every position of exhaustive depth-k histories, then requests; two threads initialising concurrently '
             'with different parameters under every order of their config-mutex acquisitions (scheduler-controlled real threads): exactly one init succeeds and '
             'its app id / channel / release are the ones later requests carry; non-trivial = distinct (state, rejected init)')
@@ -1772,8 +1839,7 @@ PROPS = {
               'exhaustive depth-k continuations of 7 lifecycle prefixes incl. lower-numbered installs and installs during boot + random walks; non-trivial as C03'),
     'C10': mk(build_C10, [monitors.mon_C10, monitors.mon_C19], trig_rb,
               'rollback lists (single, multiple, duplicates, empty, unknown numbers) through check and update entry points, exhaustive depth-k from 7 lifecycle states + random walks; non-trivial = distinct (state, call carrying a rollback list)'),
-    'C17': mk(build_C17, [monitors.mon_C17, monitors.mon_C20], trig_events,
-              'exhaustive depth-k lifecycle histories + histories with many failures before an update and restarts in between; non-trivial = distinct (state, op) that sent or queued an event'),
+    'C17': dict(mons=[monitors.mon_C17, monitors.mon_C20], run=run_C17),
     'C18': mk(build_C18, [monitors.mon_C18], trig_cur,
               'exhaustive depth-k lifecycle histories with current/next queries interleaved + random walks; non-trivial = distinct (state, current-patch query answering non-zero)'),
     'C19': mk(build_C19, [monitors.mon_C19], trig_life,
